@@ -96,6 +96,8 @@ struct Elem {
     Elem(Elem&& o) noexcept: v(o.v)
     {
         pad[0] = pad[1] = o.v;
+        // a move that really moves: the source keeps a value nobody inserted
+        o.v = o.pad[0] = o.pad[1] = -4242;
         reg();
     }
     Elem& operator=(const Elem&) = delete;
@@ -420,7 +422,16 @@ struct WL {
                 note_push(val, front ? 0 : 1, true);
                 if (op.code == OP_PUSH_FRONT) h->push_front(make_elem(val, (T*)nullptr));
                 else if (op.code == OP_PUSH_BACK) h->push_back(make_elem(val, (T*)nullptr));
-                else if (op.code == OP_EMPLACE_FRONT) h->emplace_front(make_elem(val, (T*)nullptr));
+                else if (op.b & 1) {
+                    // emplace from a named object (an lvalue): it is copied, the caller keeps it
+                    T mine = make_elem(val, (T*)nullptr);
+                    if (op.code == OP_EMPLACE_FRONT) h->emplace_front(mine);
+                    else h->emplace_back(mine);
+                    if (value_of(mine) != val)
+                        gsim::fail("argument_moved_from", "emplace(lvalue) left the caller's object in "
+                                   "a moved-from state (it now reads %ld)", value_of(mine));
+                    gsim::probe("rcu.emplace_from_lvalue");
+                } else if (op.code == OP_EMPLACE_FRONT) h->emplace_front(make_elem(val, (T*)nullptr));
                 else h->emplace_back(make_elem(val, (T*)nullptr));
                 note_push(val, front ? 0 : 1, false);
                 for (int y = 0; y < op.b; y++) gsim::yield();
